@@ -17,6 +17,7 @@ import (
 
 func runC13More(c *core.Ctx) {
 	k := newG(c, "./lib/rac", "./lib/internal/racdict")
+	runC13Pad(k)
 	// ---- Z.strip ----
 	for _, fname := range []string{"writeDChunks"} {
 		fl := k.flow("Z.strip", "lib/rac", "Writer", fname)
